@@ -77,4 +77,41 @@ def register (connected : List String) (m : RegMsg) : RegReply :=
     else if !m.versionOk && !m.ignoreVersion then .versionMismatch id
     else .ok id
 
+/-! The websocket table of `AggregatorDispatcher` (`_engine_id_channel_map`, a Python dict: engine id ↦ channel,
+insertion order) with the three events that read or change it:
+`handle_RegisterEngineMsg` (REST), `_on_delayed_client_connect` (a websocket came up and reported its id),
+`on_client_disconnect`. Channels are numbered. -/
+
+structure Conns where
+  map : List (String × Nat) := []
+deriving Repr
+
+inductive COp where
+  | register (m : RegMsg)
+  | connect (ch : Nat) (id : Option String)   -- `none`: the engine has no id to report
+  | disconnect (ch : Nat)
+
+inductive COut where
+  | reg (r : RegReply)
+  | connected (id : String)
+  | closed                 -- the new channel was closed, table unchanged
+  | disconnected (id : String)
+  | unknown                -- "Unknown engine disconnected"
+deriving Repr, DecidableEq
+
+def Conns.ids (s : Conns) : List String := s.map.map (·.1)
+
+def cstep (s : Conns) : COp → Conns × COut
+  | .register m => (s, .reg (register s.ids m))
+  | .connect _ none => (s, .closed)
+  | .connect ch (some id) =>
+    if s.ids.contains id then (s, .closed)
+    else (⟨s.map ++ [(id, ch)]⟩, .connected id)
+  | .disconnect ch =>
+    match s.map.find? (fun e => e.2 == ch) with
+    | some e => (⟨s.map.filter (fun x => x.1 != e.1)⟩, .disconnected e.1)
+    | none => (s, .unknown)
+
+def crun (s : Conns) (ops : List COp) : Conns := ops.foldl (fun s o => (cstep s o).1) s
+
 end OPM.EngineId
